@@ -26,6 +26,7 @@ import (
 	"sort"
 	"strings"
 	"sync"
+	"sync/atomic"
 	"testing"
 
 	"github.com/markkurossi/mpc/compiler"
@@ -196,9 +197,10 @@ const workerEnv = "C08_WORKER_ROOT"
 
 func TestMain(m *testing.M) {
 	// Every compilation allocates a few MB of tables and the workers are
-	// short-lived: collect only when 256 MB have been allocated.
-	debug.SetGCPercent(-1)
-	debug.SetMemoryLimit(256 << 20)
+	// short-lived: a relaxed GC target saves about a third of the run time.
+	if os.Getenv("GOGC") == "" {
+		debug.SetGCPercent(400)
+	}
 	if root, ok := os.LookupEnv(workerEnv); ok {
 		os.Exit(workerMain(root))
 	}
@@ -232,7 +234,36 @@ func workerMain(root string) int {
 	return 0
 }
 
+// selfExe is the path of this test binary.  /proc/self/exe keeps working
+// when the file has been unlinked meanwhile (the driver's alternate binaries
+// are removed by whoever finishes a mutation run).
+func selfExe() string {
+	if _, err := os.Stat("/proc/self/exe"); err == nil {
+		return "/proc/self/exe"
+	}
+	return os.Args[0]
+}
+
+var workerFailures atomic.Int64
+
+// checkWorkers turns worker failures (cases that were skipped because a
+// worker process could not be run) into a test failure without a violation:
+// the driver reports the run as inconclusive.
+func checkWorkers(t *testing.T) {
+	if n := workerFailures.Load(); n > 0 {
+		t.Errorf("infrastructure: %d cases skipped because a worker process failed", n)
+	}
+}
+
 func runWorker(cs Case, root string) ([]result, error) {
+	res, err := runWorker1(cs, root)
+	if err != nil {
+		res, err = runWorker1(cs, root)
+	}
+	return res, err
+}
+
+func runWorker1(cs Case, root string) ([]result, error) {
 	data, err := json.Marshal(cs)
 	if err != nil {
 		return nil, err
@@ -242,7 +273,7 @@ func runWorker(cs Case, root string) ([]result, error) {
 		return nil, err
 	}
 	defer pr.Close()
-	cmd := exec.Command(os.Args[0], "-test.run=^$")
+	cmd := exec.Command(selfExe(), "-test.run=^$")
 	cmd.Stdin = bytes.NewReader(data)
 	cmd.Stdout = nil
 	cmd.Stderr = nil
@@ -611,6 +642,7 @@ func run(cs Case) ev.Outcome {
 	for p, w := range wout {
 		if w.err != nil {
 			ev.Get(prop).Count("worker_failures", 1)
+			workerFailures.Add(1)
 			return ev.Outcome{Skip: "worker process failed: " + w.err.Error()}
 		}
 		for r, x := range w.res {
@@ -756,11 +788,13 @@ func genMulti(t *rapid.T) Case {
 func TestGen(t *testing.T) {
 	setScratch(t)
 	ev.Check(t, ev.Get(prop), "gen", genSingle, run)
+	checkWorkers(t)
 }
 
 func TestMulti(t *testing.T) {
 	setScratch(t)
 	ev.Check(t, ev.Get(prop), "multi", genMulti, run)
+	checkWorkers(t)
 }
 
 // TestRepo walks the fixed list of repository programs and library mains;
@@ -805,6 +839,7 @@ func TestRepo(t *testing.T) {
 			}
 		}
 	}, run)
+	checkWorkers(t)
 }
 
 func TestReplay(t *testing.T) {
